@@ -28,6 +28,9 @@ W05 == IOEnv.C05 = "1"
 W10 == IOEnv.C10 = "1"
 \* largest |haystack| * |needle| for which the full-matrix recurrence is evaluated (C04)
 NaiveMax == atoi(IOEnv.NAIVEMAX)
+\* of the seeded random records (family R) only every NaiveStride-th one is confronted with the full recurrence
+\* (the thorough tier has 20 times more of them; the other families are always confronted)
+NaiveStride == atoi(IOEnv.NAIVESTRIDE)
 
 \* NOTE: state variables must not share a name with any bound identifier of the library modules
 \* (a variable called `i` made TLC treat Chars!Row as state-dependent and re-evaluate it per character).
@@ -112,7 +115,7 @@ BlockFails(r, N, K, b, blk) ==
                  Bad(Score(o[1]) <= best, "C04", "above_optimum", blk)
                  \cup (IF n = 1 THEN Bad(Score(o[1]) = best, "C04", "one_char_not_best", blk) ELSE {})
             ELSE {})
-           \cup (IF Len(N) * n <= NaiveMax /\ Admissible(Len(N), n, IF b.rh = "A" THEN 1 ELSE 4)
+           \cup (IF Len(N) * n <= NaiveMax /\ (r.fam # "R" \/ r.id % NaiveStride = 0) /\ Admissible(Len(N), n, IF b.rh = "A" THEN 1 ELSE 4)
                  THEN Bad(NaiveRec(N, K, needle, r.paths) <= Score(o[1]), "C04", "below_recurrence", blk)
                  ELSE {})))
 
